@@ -623,6 +623,13 @@ def expand_pseries(cases):
             problems.append("PlanSeries or a member failed: %s" % [m.get("err") for m in ms])
             c["series_problems"] = problems
             continue
+        if all(not (m.get("sels") or []) for m in ms):
+            # no selector at all ({} , {}): PlanSeries answers with AllTimeSeriesSelectPlanner, every stored series of the date
+            # range, without any fingerprint condition (correct: the empty selector is satisfied by every series)
+            if "fingerprint IN" in text or " UNION ALL " in text:
+                problems.append("a Series request without any selector restricts fingerprints")
+            c["series_problems"] = problems
+            continue
         if text.count("p.fingerprint IN (") != len(ms) or text.count(" UNION ALL ") != len(ms) - 1:
             problems.append("%d readers of a fingerprint alias, %d UNION ALL for %d matchers" % (
                 text.count("p.fingerprint IN ("), text.count(" UNION ALL "), len(ms)))
@@ -642,6 +649,22 @@ def expand_pseries(cases):
                         "oracle": m.get("oracle") or [], "sql": body, "query": m["query"], "parent": c["id"], "member": i})
         c["series_problems"] = problems
     return out
+
+
+def fp_functional(c):
+    """the hypothesis db_ok / pdb_ok of the exactness theorems: among the (metric) series rows of the case's database one
+    fingerprint stands for one label set (the generators draw small fingerprints on purpose: collisions are legitimate inputs of
+    the text / interpreter ties, but the statements work per fingerprint and the specification per stored series)"""
+    seen = {}
+    if c["kind"] == "prof":
+        rows = [(p["fp"], p.get("labels") or []) for p in c.get("pdb") or []]
+    else:
+        rows = [(s0["fp"], s0.get("labels") or []) for s0 in (c.get("db") or {}).get("series") or [] if s0.get("type") in (2, 0)]
+    for fp, l in rows:
+        key = json.dumps(sorted(l))
+        if seen.setdefault(fp, key) != key:
+            return False
+    return True
 
 
 def run_shard(ck, cases, idx):
@@ -830,6 +853,10 @@ def run_shard(ck, cases, idx):
     explained = {5: 0, 7: 0, 8: 0, 10: 0, 11: 0, 12: 0}
     for cid, v in list(res["sem"].items()) + list(res["psem"].items()) + list(res["down"].items()):
         code = int(v[0])
+        if code == 4 and not fp_functional(byid[cid]):
+            # outside the hypothesis of prom_select_exact* / prof_select_exact (one fingerprint, two label sets): not judged
+            ck.extra["spec_not_judged_fingerprint_collision_in_database"] = ck.extra.get("spec_not_judged_fingerprint_collision_in_database", 0) + 1
+            continue
         if code in bad:
             bad[code].append(byid[cid])
         elif code in explained:
